@@ -1103,6 +1103,52 @@ impl Engine for SrcSim {
             acc.distinct("cases", d);
             return d;
         }
+        if idx % 50 == 9 {
+            // token types other than bytes and chars (see exotic.rs)
+            acc.inc("cases.exotic_token_types");
+            let mut d = 99u64;
+            for _ in 0..3 {
+                let ty = rng.below(crate::exotic::N_TYPES as u64) as u8;
+                let sh = rng.below(crate::exotic::N_SHAPES as u64) as u8;
+                let n = match rng.below(8) {
+                    0 => 0,
+                    1 => rng.range(1, 5) as usize,
+                    2 => 511,
+                    3 => 512,
+                    4 => 513,
+                    5 => rng.range(1020, 1030) as usize,
+                    _ => rng.range(0, 700) as usize,
+                };
+                let mut syms: Vec<u8> = (0..n).map(|_| if rng.chance(3, 4) { 0 } else { 2 }).collect();
+                if rng.chance(1, 3) && n > 0 {
+                    // ends in t0 / contains t1 somewhere: the shapes' failure points move
+                    syms[n - 1] = 0;
+                    let at = rng.usize(n);
+                    syms[at] = 1;
+                }
+                acc.inc("evaluations.replica_runs");
+                acc.inc(&format!("replica_runs.exotic_tokens.{}", crate::exotic::TYPE_NAMES[ty as usize]));
+                d = fold(d, crate::prng::fold_bytes((ty as u64) << 8 | sh as u64, &syms));
+                if n > 512 {
+                    acc.distinct("nontrivial_cases", fold(d, 0x65));
+                }
+                if let Some((exp, obs)) = crate::exotic::check(ty, &syms, sh) {
+                    let rp = json!({"engine": "srcsim", "property": "C10", "seed": seed, "case": idx, "exotic": {"ty": ty, "type_name": crate::exotic::TYPE_NAMES[ty as usize], "syms": syms, "shape": sh}, "class": "exotic-token-type", "expected": exp, "observed": obs});
+                    acc.violations.push(Violation {
+                        property: "C10".into(),
+                        engine: "srcsim".into(),
+                        seed,
+                        case: idx,
+                        class: "exotic-token-type".into(),
+                        summary: format!("token type {} shape={} length={} expected={} observed={}", crate::exotic::TYPE_NAMES[ty as usize], sh, n, exp, obs),
+                        replay: rp,
+                    });
+                    return d;
+                }
+            }
+            acc.distinct("cases", d);
+            return d;
+        }
         if idx % 50 == 7 {
             acc.inc("cases.graphemes");
             let mut d = 77u64;
